@@ -63,6 +63,62 @@ def _dp_name(node):
     return None
 
 
+def _derived_dp_locals(fi):
+    """locals that are (D,P,...) arrays because they are computed element-wise from such arrays with both leading axes kept whole:
+    `E = lam_data[:, :, numpy.newaxis, :] - lam_data[:, :, :, numpy.newaxis]`, `S = numpy.abs(E)`"""
+    out = set()
+    cur = [None]
+
+    def keeps_dp(e):
+        if isinstance(e, ast.Constant):
+            return None         # neutral
+        if isinstance(e, ast.Name):
+            if e.id == cur[0]:
+                return None     # the name itself (a re-binding such as `E = E[:, :, mask]`)
+            return True if (_dp_name(e) is not None or e.id in out) else False
+        if isinstance(e, ast.Attribute):
+            return True if _dp_name(e) is not None else False
+        if isinstance(e, ast.Subscript):
+            base = e.value
+            selfref = isinstance(base, ast.Name) and base.id == cur[0]
+            if _dp_name(base) is None and not (isinstance(base, ast.Name) and base.id in out) and not selfref:
+                return False
+            idx = e.slice.elts if isinstance(e.slice, ast.Tuple) else [e.slice]
+            if len(idx) >= 2 and _is_full_slice(idx[0]) and _is_full_slice(idx[1]):
+                return None if selfref else True
+            if len(idx) == 1 and isinstance(idx[0], ast.Constant) and idx[0].value is Ellipsis:
+                return None if selfref else True
+            return False
+        if isinstance(e, ast.BinOp) and isinstance(e.op, (ast.Add, ast.Sub, ast.Mult, ast.Div)):
+            a, b = keeps_dp(e.left), keeps_dp(e.right)
+            if a is False or b is False:
+                return False
+            return True if (a or b) else None
+        if isinstance(e, ast.UnaryOp):
+            return keeps_dp(e.operand)
+        if isinstance(e, ast.Call) and (dotted_name(e.func) or '') in ('numpy.abs', 'numpy.absolute', 'numpy.negative', 'numpy.conjugate', 'abs') and len(e.args) == 1:
+            return keeps_dp(e.args[0])
+        return False
+    for _ in range(3):
+        n0 = len(out)
+        for st in walk_no_nested(fi.node):
+            if isinstance(st, ast.Assign) and len(st.targets) == 1 and isinstance(st.targets[0], ast.Name) and st.targets[0].id not in fi.params:
+                nm = st.targets[0].id
+                if nm in out or _dp_name(st.targets[0]) is not None:
+                    continue
+                # every binding of the name must be of this kind
+                vals = [s_.value for s_ in walk_no_nested(fi.node) if isinstance(s_, ast.Assign) and len(s_.targets) == 1
+                        and isinstance(s_.targets[0], ast.Name) and s_.targets[0].id == nm]
+                cur[0] = nm
+                verdicts = [keeps_dp(v) for v in vals]
+                cur[0] = None
+                if vals and all(v is not False for v in verdicts) and any(v is True for v in verdicts):
+                    out.add(nm)
+        if len(out) == n0:
+            break
+    return out
+
+
 def _shape_source_is_dp(fi, v, depth=0):
     """the expression is the shape of a (D,P,...) array: X_data.shape[:k], numpy.shape(X.data)[:k], X_shp[:k] with
     X_shp assigned from such a shape"""
@@ -261,6 +317,7 @@ def rule_paxis(ctx):
         psyms = _psyms(fi)
         loops = _p_loops(fi, psyms)
         nondp = _non_dp_locals(fi)
+        derived = _derived_dp_locals(fi)
         in_loop = {}
         for lp, var, full in loops:
             if not full:
@@ -279,6 +336,8 @@ def rule_paxis(ctx):
             if not isinstance(n, ast.Subscript):
                 continue
             nm = _dp_name(n.value)
+            if nm is None and isinstance(n.value, ast.Name) and n.value.id in derived:
+                nm = n.value.id
             if nm is None or nm in nondp:
                 continue
             ix = _axis1(n)
